@@ -9,6 +9,7 @@ use std::cell::RefCell;
 use std::collections::HashMap;
 use std::io::{BufRead, Write};
 
+mod meta;
 mod ops;
 mod util;
 
